@@ -109,6 +109,10 @@ def run(ctx):
     ctx.do(rule_deepcopy)
     from . import C15 as _C15v
     ctx.do(_C15v.rule_value_object, rule_id="C13.deepcopy")
+    # "a deep copy is equal to its original": the copy of a timestamp is written with the digits of the original
+    from . import C15
+    ctx.do(C15.rule_metadata_compared_as_enums, rule_id="C13.copies-present")
+    ctx.do(C15.rule_state_keys_agree, rule_id="C13.copies-present")
     from .pitfalls import rule_no_alias_then_mutate
     ctx.do(rule_no_alias_then_mutate, "C13.no-param-mutation", ("stix2.",))
     from .hidden_state import rule_no_hidden_state
